@@ -225,7 +225,8 @@ ELEMENTARY_SPECIAL = ('PooledModel', 'HeterogeneousModel')
 
 
 def r02_6(ctx, repo, files=('chi/_log_pdfs.py', 'chi/_predictive_models.py',
-                            'chi/_problems.py', 'chi/_inference.py')):
+                            'chi/_problems.py', 'chi/_inference.py',
+                            'chi/_population_models.py')):
     """isinstance(x, PooledModel|HeterogeneousModel) outside the population
     model module decides a layout by class identity; wrappers (Reduced,
     Covariate) forward the interface but are not instances."""
